@@ -72,6 +72,17 @@ def _truth_tested_names(fn):
         elif isinstance(n, ast.comprehension):
             for c in n.ifs:
                 mark(c)
+        elif isinstance(n, ast.BoolOp):
+            # in value position as well: `(x or 0) > 0`, `y = x and f(x)` decide by the truth of every operand but the last
+            for v in n.values[:-1]:
+                mark(v)
+        elif isinstance(n, ast.UnaryOp) and isinstance(n.op, ast.Not):
+            mark(n.operand)
+        elif isinstance(n, ast.Call) and (call_name(n) or "") in ("bool", "operator.truth", "truth") and len(n.args) == 1:
+            mark(n.args[0])
+        elif isinstance(n, ast.Call) and (call_name(n) or "") in ("any", "all") and len(n.args) == 1 and isinstance(n.args[0], (ast.Tuple, ast.List, ast.Set)):
+            for v in n.args[0].elts:
+                mark(v)
     return out
 
 
@@ -165,10 +176,16 @@ def parameter_threaded(ctx, rel, rule, pname, min_calls=2):
                 if k.arg == pname:
                     arg = k.value
             n += 1
+            # the NAME reaches the callee; it is the caller's value only if the function never binds the name again
+            rebound = next((x for x in ast.walk(f) if isinstance(x, ast.Name) and x.id == pname and isinstance(x.ctx, (ast.Store, ast.Del))
+                            or isinstance(x, (ast.FunctionDef, ast.AsyncFunctionDef, ast.ClassDef)) and x is not f and x.name == pname
+                            or isinstance(x, ast.alias) and (x.asname or x.name).split(".")[0] == pname
+                            or isinstance(x, ast.arg) and x.arg == pname and not any(x is a_ for a_ in f.args.posonlyargs + f.args.args + f.args.kwonlyargs)), None)
             ctx.ob(rule, rel, q, f"{cn}(.. {pname}={ast.unparse(arg) if arg is not None else '<default>'})",
-                   isinstance(arg, ast.Name) and arg.id == pname,
+                   isinstance(arg, ast.Name) and arg.id == pname and rebound is None,
                    f"`{pname}` given to {q.split('.')[-1]}() does not reach {cn}(): the callee works with " +
-                   ("its default" if arg is None else ast.unparse(arg)), c.lineno)
+                   ("its default" if arg is None else ast.unparse(arg) + (f" (the name is bound again at line {getattr(rebound, 'lineno', '?')})" if rebound is not None else "")),
+                   c.lineno)
     ctx.floor(f"{rule}:{rel}", n, min_calls)
     return n
 
